@@ -27,7 +27,7 @@ Section StepsH.
     destruct H as [Hp [Hn [Hf Hr]]]. assert (H : eqv m s1 s2) by (split; [exact Hp | split; [exact Hn | split; [exact Hf | exact Hr]]]).
     destruct (eqv_fields m s1 s2 H) as [Hhist _].
     assert (Hne : tgt <> 0) by (intros ->; rewrite (good_root m Hgood) in Hh; discriminate).
-    unfold exec_external. rewrite Hh, <- Hhist.
+    unfold exec_external. rewrite Hh, <- Hhist. rewrite !(ext_exit_set_nonroot m _ _ _ tgt Hne).
     set (d := find_domain m (t_src t) tgt).
     assert (Hxs : sort_by (lt_depth_id m) (exit_set_h m (s_cfg s1) (s_hist s1) d tgt) = sort_by (lt_depth_id m) (exit_set_h m (s_cfg s2) (s_hist s1) d tgt))
       by (apply (exit_order_independent_h m Hids (s_cfg s1) (s_cfg s2) Hf Hn Hp)).
@@ -85,6 +85,56 @@ Section StepsH.
       + apply (relp_bind m (hook_trans t) (hook_trans t) hook_notify hook_notify (relp_hook_trans m t) (relp_hook_notify m) t1 u1 A).
       + apply (relp_bind m hook_notify hook_notify (hook_trans t) (hook_trans t) (relp_hook_notify m) (relp_hook_trans m t) t1 u1 A).
   Qed.
+  (* an external transition to the machine root (the machine restarts) *)
+  Theorem exec_external_eqv_root eng pr t ev s1 s2 :
+    eqv m s1 s2 ->
+    eqv m (fst (exec_external eng pr m t 0 ev s1)) (fst (exec_external eng pr m t 0 ev s2))
+    /\ snd (exec_external eng pr m t 0 ev s1) = snd (exec_external eng pr m t 0 ev s2).
+  Proof.
+    intros H.
+    destruct H as [Hp [Hn [Hf Hr]]]. assert (H : eqv m s1 s2) by (split; [exact Hp | split; [exact Hn | split; [exact Hf | exact Hr]]]).
+    unfold exec_external. rewrite (good_root m Hgood). rewrite !ext_exit_set_root, ext_path_root.
+    assert (Hxs : sort_by (lt_depth_id m) (s_cfg s1) = sort_by (lt_depth_id m) (s_cfg s2))
+      by (apply (exit_order_canonical m Hids); assumption).
+    rewrite <- Hxs. set (xs := rev (sort_by (lt_depth_id m) (s_cfg s1))).
+    set (U := add_all (entered (S (size m)) m [0]) []).
+    assert (HUl : Legal m U) by (apply (root_formula_legal m Hwf Hgood)).
+    set (body := exit_states eng pr m xs (Some ev) ;; (fun s => exec_actions eng pr (t_actions t) ev s) ;; enter eng pr m [0] (Some ev) ;; ret).
+    assert (Hbody : eqv m (fst (body s1)) (fst (body s2)) /\ snd (body s1) = snd (body s2)).
+    { unfold body, bind.
+      destruct (relp_exit_states m Hids eng pr xs (Some ev) s1 s2 H) as [A B].
+      destruct (exit_states eng pr m xs (Some ev) s1) as [t1 e1] eqn:E1. destruct (exit_states eng pr m xs (Some ev) s2) as [u1 e1']. simpl in A, B. subst e1'.
+      destruct e1; [split; [exact A | reflexivity]|].
+      pose proof (exit_states_effect m eng pr xs (Some ev) s1 t1 E1) as Ec1.
+      destruct (eqv_exec_actions m eng pr (t_actions t) ev t1 u1 A) as [A2 B2].
+      pose proof (exec_actions_same eng pr (t_actions t) ev t1) as [Ec2 _].
+      destruct (exec_actions eng pr (t_actions t) ev t1) as [t2 e2]. destruct (exec_actions eng pr (t_actions t) ev u1) as [u2 e2']. simpl in A2, B2, Ec2. subst e2'.
+      destruct e2; [split; [exact A2 | reflexivity]|].
+      assert (I2 : incl (s_cfg t2) U).
+      { rewrite Ec2, Ec1. rewrite (remove_all_super xs (s_cfg s1)); [intros y []|].
+        intros y Hy. unfold xs. rewrite <- in_rev. now apply (sort_by_In (lt_depth_id m)). }
+      assert (HE : incl (entered (S (size m)) m [0]) U) by (intros y Hy; unfold U, add_all; apply fold_cadd_In; now left).
+      destruct (enter_states_relu m U (legal_amo m Hwf U HUl) (L_range m U HUl) eng pr (S (size m)) [0] (Some ev) HE t2 u2 A2 I2) as [A3 [B3 _]].
+      unfold enter.
+      destruct (enter_states (S (size m)) eng pr m [0] (Some ev) t2) as [t3 e3]. destruct (enter_states (S (size m)) eng pr m [0] (Some ev) u2) as [u3 e3']. simpl in A3, B3. subst e3'.
+      unfold ret. destruct e3; split; try exact A3; reflexivity. }
+    fold body. destruct Hbody as [A B]. destruct (body s1) as [t1 e1]. destruct (body s2) as [u1 e1']. simpl in A, B. subst e1'.
+    destruct e1 as [e|].
+    - assert (Hsn : sort_nat (s_cfg s1) = sort_nat (s_cfg s2)) by now apply sort_nat_canonical.
+      rewrite <- Hsn.
+      assert (Hw : eqv m (with_cfg (s_cfg s1) t1) (with_cfg (s_cfg s2) u1)) by now apply (eqv_with_cfg m).
+      assert (Hmem : filter (fun x => mem x (s_cfg s1)) (sort_nat (s_cfg s1)) = filter (fun x => mem x (s_cfg s2)) (sort_nat (s_cfg s1)))
+        by (apply filter_ext; intros x; now apply mem_perm).
+      rewrite <- Hmem.
+      destruct (relp_for_each m (sched eng m) (filter (fun x => mem x (s_cfg s1)) (sort_nat (s_cfg s1))) (relp_sched m eng) _ _ Hw) as [A2 B2].
+      destruct (for_each (sched eng m) _ (with_cfg (s_cfg s1) t1)) as [t2 e2]. destruct (for_each (sched eng m) _ (with_cfg (s_cfg s2) u1)) as [u2 e2']. simpl in A2, B2. subst e2'.
+      destruct e2; split; try exact A2; reflexivity.
+    - destruct eng.
+      + apply (relp_bind m hook_notify hook_notify (hook_trans t) (hook_trans t) (relp_hook_notify m) (relp_hook_trans m t) t1 u1 A).
+      + apply (relp_bind m (hook_trans t) (hook_trans t) hook_notify hook_notify (relp_hook_trans m t) (relp_hook_notify m) t1 u1 A).
+      + apply (relp_bind m hook_notify hook_notify (hook_trans t) (hook_trans t) (relp_hook_notify m) (relp_hook_trans m t) t1 u1 A).
+  Qed.
+
   Theorem exec_transition_eqv eng pr t ev s1 s2 :
     eqv m s1 s2 -> Inv s1 -> In (t_src t) (s_cfg s1) -> target_okh m t ->
     eqv m (fst (exec_transition eng pr m t ev s1)) (fst (exec_transition eng pr m t ev s2))
@@ -95,7 +145,8 @@ Section StepsH.
       by (apply relp_bind; [apply relp_actions | apply relp_hook_trans]).
     unfold target_okh in Hok. destruct (t_target t) as [|tgt|]; [now apply Hint | | split; [exact H | reflexivity]].
     destruct (Nat.eqb tgt (t_src t) && negb (t_reenter t)); [now apply Hint|].
-    destruct Hok as [Ht [Hne Hst]]. destruct (is_history m tgt) eqn:Hh.
+    destruct Hok as [Ht Hst]. destruct (Nat.eq_dec tgt 0) as [->|Hne]; [now apply exec_external_eqv_root|].
+    destruct (is_history m tgt) eqn:Hh.
     - now apply exec_external_eqv_hist; [| | | | | | apply Hst].
     - now apply (PermP.exec_external_eqv m Hwf Hgood Hids).
   Qed.
